@@ -1,8 +1,14 @@
-import Rc.Model.Builder
+import Rc.Model.BuilderWire
 /-
 Model side of the C06 line protocol (see harness/src/props/c06.rs):
   `<op> <fam> wd <W> ann <A> nh <kind> attrs <len>`
-NLRI are their encoded sizes (`N := Nat`, `sz := id`).
+Size-only lines: NLRI are their encoded sizes (`N := Nat`, `sz := id`).
+Value-carrying lines (every NLRI token is `=<hex>` or `=<hex>x<count>`, the octets of the NLRI
+with its path id): the builder model runs over the values of the NLRI type (`N := NV f`, the
+codecs of property C05, `sz := nlriSz` = `compose_len`), and every message in the reply ends in a
+digest of `wireBytes`, the octets the model says `finish` writes - the instantiation the theorems
+`emitted_pdu_decodes` / `emitted_pdu_content` / `end_to_end_conservation` of Rc/Thm/C06.lean are
+about. The harness appends the same digest of the real octets.
 -/
 namespace Rc.Drv.C06
 open Rc Rc.Builder
@@ -125,8 +131,17 @@ def upToAnn : List String → List String → Option (List String × List String
   | [], _ => none
   | t :: ts, acc => if t == "ann" then some (acc.reverse, ts) else upToAnn ts (t :: acc)
 
-/-- `some (op, none)`: the next hop was refused by `set_nexthop` -/
-def parse (ws : List String) : Option (String × Option (B Nat)) :=
+/-- a parsed request: `b = none`: the next hop was refused by `set_nexthop` -/
+structure Req (N : Type) where
+  op : String
+  fam : Fam
+  pl : NhPlan
+  al : Nat
+  b : Option (B N)
+
+/-- the request line over NLRI of type `N` read by `tk` -/
+def parseG {N : Type} (tk : Fam → List String → Option (List N)) (attrList : Nat → List Nat) (ws : List String) :
+    Option (Req N) :=
   match ws with
   | op :: fam :: "wd" :: rest =>
     match famOf fam, upToAnn rest [] with
@@ -135,19 +150,19 @@ def parse (ws : List String) : Option (String × Option (B Nat)) :=
       | len :: "attrs" :: k :: "nh" :: atRev =>
         let at_ := atRev.reverse
         if wt.isEmpty || at_.isEmpty then none else
-        let wd : Option (Option (List Nat)) :=
+        let wd : Option (Option (List N)) :=
           if wt == ["-"] then some none
           -- `e`: `add_withdrawals_from_pdu` of a PDU without NLRI of this family. Since the C07
           -- repair of K7 it leaves the builder as it was (no empty MP_UNREACH builder behind).
           else if wt == ["e"] then some none
-          else (toks f wt).map some
-        let ann : Option (List Nat) := if at_ == ["-"] then some [] else toks f at_
+          else (tk f wt).map some
+        let ann : Option (List N) := if at_ == ["-"] then some [] else tk f at_
         match wd, ann, nhOf k, attrsOf len with
         | some wd, some ann, some pl, some al =>
           if al == 1 || al == 2 then none else
           if op != "split" && op != "iter" && op != "take" && op != "single" then none else
-          let b0 : B Nat := { wd := wd, ann := none, attrs := if al == 0 then [] else [al] }
-          let step (b : B Nat) (arg : Option NextHopArg) (ll : Bool) : Option (B Nat) :=
+          let b0 : B N := { wd := wd, ann := none, attrs := attrList al }
+          let step (b : B N) (arg : Option NextHopArg) (ll : Bool) : Option (B N) :=
             match (match arg with | none => some b | some a => setMpNexthop b a) with
             | none => none
             | some b => if ll then setNexthopLl b else some b
@@ -155,71 +170,197 @@ def parse (ws : List String) : Option (String × Option (B Nat)) :=
           -- (`add_announcement`: the family's default next hop if there is no MP_REACH builder yet),
           -- then the same two calls again if the token asks for them after the announcements
           match step b0 pl.pre pl.preLl with
-          | none => some (op, none)
+          | none => some ⟨op, f, pl, al, none⟩
           | some b1 =>
-            let annB : Option (List Nat × NextHop) :=
+            let annB : Option (List N × NextHop) :=
               match b1.ann with
               | some (_, x) => some (ann, x)
               | none => if ann.isEmpty then none else some (ann, defaultNh f)
             match step { b1 with ann := annB } pl.post pl.postLl with
-            | none => some (op, none)
-            | some b2 => some (op, some b2)
+            | none => some ⟨op, f, pl, al, none⟩
+            | some b2 => some ⟨op, f, pl, al, some b2⟩
         | _, _, _, _ => none
       | _ => none
     | _, _ => none
   | _ => none
+
+/-! ### value-carrying lines: the concrete parts -/
+
+def toFam : Base → Rc.Nlri.Fam
+  | .v4u => .v4u | .v4m => .v4m | .v4mpls => .v4mpls | .v4vpn => .v4vpn | .v4rt => .v4rt | .v4fs => .v4fs
+  | .v6u => .v6u | .v6m => .v6m | .v6mpls => .v6mpls | .v6vpn => .v6vpn | .v6fs => .v6fs
+  | .vpls => .vpls | .evpn => .evpn
+
+/-- the NLRI with these octets: what the NLRI type's parser makes of them (all of them), if
+composing that gives the octets back -/
+def nlriOfBytes (F : Rc.Nlri.Fam) (ap : Bool) (bs : Bytes) : Option (NV F) :=
+  let v : Option (NV F) :=
+    if ap then
+      match (Rc.Nlri.codecAp F).dec bs with
+      | .ok (x, []) => some x
+      | _ => none
+    else
+      match (Rc.Nlri.codec F).dec bs with
+      | .ok (x, []) => some (0, x)
+      | _ => none
+  match v with
+  | some x => if nlriEnc F ap x == bs && nlriSz F ap x == bs.length then some x else none
+  | none => none
+
+/-- `=<hex>` | `=<hex>x<count>` -/
+def vtok (F : Rc.Nlri.Fam) (ap : Bool) (t : String) : Option (List (NV F)) :=
+  match t.toList with
+  | '=' :: r =>
+    let one (h : String) : Option (NV F) :=
+      if h.length > 8400 || !h.toList.all (fun c => c.isDigit || ('a' ≤ c && c ≤ 'f')) then none else
+      match bytesOfHex h with
+      | some bs => if bs.isEmpty then none else nlriOfBytes F ap bs
+      | none => none
+    match (String.ofList r).splitOn "x" with
+    | [h] => (one h).map fun x => [x]
+    | [h, n] => match one h, num n with
+      | some x, some n => if n != 0 then some (List.replicate n x) else none
+      | _, _ => none
+    | _ => none
+  | _ => none
+
+def vtoks (F : Rc.Nlri.Fam) (ap : Bool) : List String → Option (List (NV F))
+  | [] => some []
+  | t :: ts => match vtok F ap t, vtoks F ap ts with
+    | some a, some b => some (a ++ b)
+    | _, _ => none
+
+def V4NH : Bytes := [10, 0, 0, 1]
+def V6NH : Bytes := [0x20, 0x01, 0x0d, 0xb8, 0, 0, 0, 0, 0, 0, 0, 0, 0, 0, 0, 1]
+def LLNH : Bytes := [0xfe, 0x80, 0, 0, 0, 0, 0, 0, 0, 0, 0, 0, 0, 0, 0, 1]
+def RDNH : Bytes := [0, 1, 0, 2, 0, 3, 0, 4]
+
+/-- the address octets of the next hop the builder holds after the calls of the plan: the
+addresses the harness passes where `set_nexthop` was called, the all-zero next hop of
+`NextHop::new` (nexthop.rs:25) otherwise; the link-local address of `set_nexthop_ll_addr` -/
+def nhBytes (pl : NhPlan) (nh : NextHop) : Bytes :=
+  let explicit := pl.pre.isSome || pl.post.isSome
+  let z (n : Nat) : Bytes := List.replicate n 0
+  match nh with
+  | .v4 | .m4 => if explicit then V4NH else z 4
+  | .v6 | .m6 => if explicit then V6NH else z 16
+  | .ll => (if explicit then V6NH else z 16) ++ LLNH
+  | .vpn4 => if explicit then RDNH ++ V4NH else z 12
+  | .vpn6 => if explicit then RDNH ++ V6NH else z 24
+  | .empty => []
+
+/-- how the harness makes up an attribute set of `len` octets (c06.rs `attr_plan`):
+(ORIGIN?, LOCAL_PREF?, number of standard communities, size of the filler attribute) -/
+def attrPlan (len : Nat) : Bool × Bool × Nat × Nat :=
+  let repr (f : Nat) : Bool := f == 0 || (3 ≤ f && f ≤ 258) || f ≥ 260
+  let commBytes (c : Nat) : Nat := if c == 0 then 0 else if 4 * c > 255 then 4 + 4 * c else 3 + 4 * c
+  if len == 0 then (false, false, 0, 0) else
+  let c := if len ≥ 100 then min ((len / 2 - 4) / 4) 400 else 0
+  let cands : List (Bool × Bool × Nat) := [(true, true, c), (true, true, 0), (true, false, 0), (false, false, 0)]
+  let rec go : List (Bool × Bool × Nat) → Bool × Bool × Nat × Nat
+    | [] => (false, false, 0, len)
+    | (o, l, c) :: r =>
+      let fixed := (if o then 4 else 0) + (if l then 7 else 0) + commBytes c
+      if len ≥ fixed + 3 && repr (len - fixed) then (o, l, c, len - fixed)
+      else if len == fixed then (o, l, c, 0)
+      else go r
+  go cands
+
+/-- the TLVs the attribute map of the request composes to, in type-code order: ORIGIN IGP,
+LOCAL_PREF 100, COMMUNITIES 65000:i, an unrecognised optional transitive attribute (type 250,
+which `UnimplementedPathAttribute::compose` marks Partial) -/
+def attrTlvs (len : Nat) : List Upd.RawAttr :=
+  let (o, l, c, fill) := attrPlan len
+  (if o then [⟨0x40, 1, [0]⟩] else [])
+  ++ (if l then [⟨0x40, 5, [0, 0, 0, 100]⟩] else [])
+  ++ (if c > 0 then
+        [⟨if 4 * c > 255 then 0xd0 else 0xc0, 8,
+          (List.range c).flatMap fun i => [0xfd, 0xe8, UInt8.ofNat (i / 256), UInt8.ofNat i]⟩]
+      else [])
+  ++ (if fill > 0 then
+        if fill ≥ 260 then [⟨0xf0, 250, (List.range (fill - 4)).map fun j => UInt8.ofNat (j * 3)⟩]
+        else [⟨0xe0, 250, (List.range (fill - 3)).map fun j => UInt8.ofNat (j * 3)⟩]
+      else [])
+
+def fnv32 (bs : Bytes) : UInt32 := bs.foldl (fun h b => (h ^^^ b.toUInt32) * 16777619) 2166136261
+def sum32 (bs : Bytes) : UInt32 := bs.foldl (fun s b => s + b.toUInt32) 0
+
+/-- short messages in full, longer ones as FNV-1a and octet sum (both mod 2^32) -/
+def digest (bs : Bytes) : String :=
+  if bs.length ≤ 96 then s!"h{hexOfBytes bs}" else s!"d{(fnv32 bs).toNat}.{(sum32 bs).toNat}"
 
 def errName : Err → String
   | .tooLarge => "toolarge"
   | .emptyReach => "emptyreach"
   | .emptyUnreach => "emptyunreach"
 
-def desc (m : Msg Nat) : String :=
+def desc {N : Type} (extra : Msg N → String) (m : Msg N) : String :=
   let nh := match m.ann with
     | some (_, nh) => nh.composeLen
     | none => 0
-  s!"{m.lenField}:{m.wdList.length}:{m.annList.length}:{attrsLen m.attrs}:{nh}:{m.attrLenField}"
+  s!"{m.lenField}:{m.wdList.length}:{m.annList.length}:{attrsLen m.attrs}:{nh}:{m.attrLenField}{extra m}"
 
 /-- the property only says "an error": which `ComposeError` it is stays out of the reply -/
-def item : Res (Msg Nat) → String
-  | .ok m => desc m
+def item {N : Type} (extra : Msg N → String) : Res (Msg N) → String
+  | .ok m => desc extra m
   | .err _ => "E"
   | .panic => "PANIC"
 
 def join (l : List String) : String := " ".intercalate l
 
-def handle (ws : List String) : String :=
-  match parse ws with
-  | none => "bad-op"
-  | some (_, none) => "err nexthop"
-  | some (op, some b) =>
-    let bound := nlriCount b + 2
-    match op with
-    | "split" =>
-      -- the harness first pulls the iterator under the same bound
-      match pduIter id bound (some b) with
-      | none => "hang"
-      | some rs =>
-        if rs.any (fun r => match r with | .panic => true | _ => false) then "panic" else
-        match intoMessages id bound b with
-        | .ok ms => s!"ok {ms.length} {join (ms.map desc)}"
-        | .err _ => "err"
-        | .panic => "panic"
-        | .outOfFuel => "hang"
-    | "iter" =>
-      match pduIter id bound (some b) with
-      | none => "hang"
-      | some rs =>
-        if rs.any (fun r => match r with | .panic => true | _ => false) then "panic" else
-        s!"{rs.length} {join (rs.map item)}"
-    | "take" =>
-      match takeMessage id b with
-      | (.panic, _) => "panic"
-      | (r, rem) => s!"{item r} {if rem.isSome then "some" else "none"}"
-    | "single" =>
-      match intoMessage id b with
+def run {N : Type} (sz : N → Nat) (extra : Msg N → String) (op : String) (b : B N) : String :=
+  let bound := nlriCount b + 2
+  match op with
+  | "split" =>
+    -- the harness first pulls the iterator under the same bound
+    match pduIter sz bound (some b) with
+    | none => "hang"
+    | some rs =>
+      if rs.any (fun r => match r with | .panic => true | _ => false) then "panic" else
+      match intoMessages sz bound b with
+      | .ok ms => s!"ok {ms.length} {join (ms.map (desc extra))}"
+      | .err _ => "err"
       | .panic => "panic"
-      | r => item r
+      | .outOfFuel => "hang"
+  | "iter" =>
+    match pduIter sz bound (some b) with
+    | none => "hang"
+    | some rs =>
+      if rs.any (fun r => match r with | .panic => true | _ => false) then "panic" else
+      s!"{rs.length} {join (rs.map (item extra))}"
+  | "take" =>
+    match takeMessage sz b with
+    | (.panic, _) => "panic"
+    | (r, rem) => s!"{item extra r} {if rem.isSome then "some" else "none"}"
+  | "single" =>
+    match intoMessage sz b with
+    | .panic => "panic"
+    | r => item extra r
+  | _ => "bad-op"
+
+/-- a value-carrying line: some NLRI token starts with `=` -/
+def isConcrete (ws : List String) : Bool := ws.any fun t => t.startsWith "="
+
+def handle (ws : List String) : String :=
+  if isConcrete ws then
+    match ws with
+    | _ :: fam :: _ =>
+      match famOf fam with
+      | none => "bad-op"
+      | some f =>
+        let F := toFam f.b
+        -- the model's attribute list: the composed length of each attribute of the map
+        match parseG (N := NV F) (fun _ => vtoks F f.ap) (fun al => (attrTlvs al).map fun a => (Upd.encRaw a).length) ws with
+        | none => "bad-op"
+        | some ⟨_, _, _, _, none⟩ => "err nexthop"
+        | some ⟨op, _, pl, al, some b⟩ =>
+          let others := attrTlvs al
+          run (nlriSz F f.ap) (fun m => ":" ++ digest (wireBytes F f.ap (nhBytes pl) (msgOthers others m) m)) op b
     | _ => "bad-op"
+  else
+    match parseG (N := Nat) toks (fun al => if al == 0 then [] else [al]) ws with
+    | none => "bad-op"
+    | some ⟨_, _, _, _, none⟩ => "err nexthop"
+    | some ⟨op, _, _, _, some b⟩ => run id (fun _ => "") op b
 
 end Rc.Drv.C06
